@@ -467,6 +467,10 @@ def apply_rules(s, rules, st, label='rule'):
         count = r[2] if len(r) > 2 else None   # exact number of expected matches, None = at least one
         flags = re.S
         s2, k = re.subn(pat, rep, s, flags=flags)
+        if count == '?':        # optional rule (shared rule lists): may fire zero times
+            bump(st, '%s:%s' % (label, pat[:50]), k)
+            s = s2
+            continue
         if k == 0 or (count is not None and k != count):
             raise ExtractError('%s %d %r fired %d time(s), expected %s' % (label, idx, pat[:70], k, count if count is not None else '>=1'))
         bump(st, '%s:%s' % (label, pat[:50]), k)
